@@ -309,6 +309,11 @@ def _box(L):
     p = _params_back(L)
     if c == "Numpy":
         a = _np_from(L["dt"], L["shape"], L["d"], L.get("fmt"))
+        if L.get("view") == "step2" and a.ndim == 1 and len(a) >= 1:
+            wide = numpy.empty(2 * len(a), dtype=a.dtype)          # every second element of a wider buffer: x[1::2]
+            wide[1::2] = a
+            wide[0::2] = a[::-1] if a.dtype.kind not in "Mm" else a
+            a = wide[1::2]
         if L.get("order") == "F" and a.ndim >= 2:
             a = numpy.asfortranarray(a)               # column-major buffer, same values (what x.T / asfortranarray hand over)
         if len(L["shape"]) == 0:
